@@ -57,11 +57,28 @@ class C15(C06):
             for t in range(rng.randint(70, 90)):
                 reqs.append("%s:~:%s=i1&%s=%s&%s=%s" % (hx("p4"), hx("n"), hx("c"), "m" + hx("ok%d" % t), hx("d"), "m" + hx("ok%d" % (t // 2))))
         rng.shuffle(reqs)
+        warm = 0
+        if rng.random() < 0.3:
+            # a formatter kind that is ALREADY cached (warm-up by the main thread) gets a new argument set with a slow
+            # constructor on one thread while another thread makes the bundle's first-ever plural request, and a slow
+            # format callback is in flight while others add argument sets (threads start at request 0, 3, 6, 9, ...)
+            def custom(tag, dtag="ok1"):
+                return "%s:~:%s=i1&%s=%s&%s=%s" % (hx("p4"), hx("n"), hx("c"), "m" + hx(tag), hx("d"), "m" + hx(dtag))
+            def plural(msg, n):
+                return "%s:~:%s=%s&%s=%s&%s=%s" % (hx(msg), hx("n"), n, hx("c"), "c" + hx("cv"), hx("d"), "c" + hx("d"))
+            # threads start at requests 0, 3, 6, 9: slow constructor | first plural | slow constructor | first ordinal
+            head = [custom("slowA%d" % rng.randrange(1000)), custom("lazyA"), custom("ok7"),
+                    plural("p0", "i2"), custom("ok8"), custom("ok9"),
+                    custom("slowB%d" % rng.randrange(1000), "lazyB"), custom("ok10"), custom("ok11"),
+                    plural("p1", "i3"), custom("ok12"), custom("ok13")]
+            reqs = [r for r in reqs if not r.startswith((hx("p0") + ":", hx("p1") + ":", hx("p2") + ":"))] if rng.random() < 0.5 else reqs
+            reqs = head + reqs + [custom("ok0")]          # the last request is the warm-up: the custom kind exists
+            warm = 1
         body = "a:%s %s %s" % (hx(res), ",".join(resgen.FUNCS), ",".join(reqs))
         parts = []
         for loc in locs:
             cfgbase = "%s;loc=%s" % (opts, loc)
-            parts.append("%s;th=%d%s %s" % (cfgbase, th, ";pool=1" if pooled else "", body))
+            parts.append("%s;th=%d%s%s %s" % (cfgbase, th, ";pool=1" if pooled else "", ";warm=%d" % warm if warm else "", body))
             parts.append("%s;th=1 %s" % (cfgbase, body))
         return "fmt " + " | ".join(parts)
 
